@@ -46,14 +46,14 @@ def native_sweep(script, what, quick, thorough):
 
 REGISTRY = {
     'C10': dict(module='contracts.C10', level='proof',
-                native=native_sweep('c10_farfield.py', 'independent radiation integral (current moments at pulse points, image currents), dBi vs V/m per polarisation from the printed tables, power sum, sqrt(power)/distance scaling, 360-degree periodicity, zenith independence', 25, 800),
+                native=native_sweep('c10_farfield.py', 'independent radiation integral (current moments at pulse points, image currents), dBi vs V/m per polarisation from the printed tables, power sum, sqrt(power)/distance scaling, 360-degree periodicity, zenith independence, a second request through the same (mutated) Angle objects', 25, 800),
                 undecided=['the radiation sum is decided on arrays of (zenith x azimuth x pulses) = 1x2x2, 2x1x1 and 1x1x3 only (shape-bounded, values symbolic); other shapes, the 2 % agreement with the exact integral over straight half-segments and the real-ground branch: native sweep only',
                            '360-degree periodicity and zenith/azimuth independence (properties of cos/sin, uninterpreted here) -- native sweep only'],
                 trusted=['np.log / np.sqrt / cos / sin as uninterpreted functions with the listed axioms; the tail slice is executed for one direction (1x1 arrays): the statements are elementwise numpy operations',
                          'numpy semantics as modelled on small object arrays: broadcasting, basic indexing, boolean-mask row stores, np.tile / repeat / reshape / sum(axis) / meshgrid / .T (executed by numpy itself on arrays of symbolic objects)',
                          'a grounded pulse lies on the plane (z = 0 exactly; the code accepts |z| < 1e-3 of the shortest segment)']),
     'C11': dict(module='contracts.C11', level='proof',
-                native=native_sweep('c11_ground.py', 'currents over real ground == ideal ground; medium split; far medium beyond every reflection point; sigma = 1e12 vs ideal ground (1..2 media, linear/circular boundary, radials)', 40, 1500),
+                native=native_sweep('c11_ground.py', 'currents over real ground == ideal ground; medium split; far medium beyond every reflection point; sigma = 1e12 vs ideal ground (1..2 media, linear/circular boundary, radials); outer medium split into two identical pieces (3 media)', 40, 1500),
                 undecided=['pattern converges to ideal ground as conductivity grows: the limit point is decided (the whole real-ground computation of E(theta), E(phi) with surface impedance 0, one medium at height 0 without radials, equals the ideal-ground computation on 1x1x2 arrays; and Z = 0 gives v = 1, h = 0); continuity in Z and the rate of convergence: native sweep only',
                            'splitting a medium / adding a further medium: decided end to end (the whole real-ground computation of E(theta), E(phi), run over one medium and over two, coincides) on arrays of 1 direction x 1 pulse without radials, linear and circular boundary; the further-medium case assumes its boundary beyond the reflection distance b9 the code computes (b9 itself: reflection-point unit); more pulses / directions / a radial screen in these two clauses: native sweep only'],
                 trusted=['call graph over-approximated by method name and arity',
@@ -110,9 +110,9 @@ REGISTRY = {
     'C17': dict(module='contracts.C17', native=native_sweep('c17_addr.py', 'block order, numbering, both addressing forms for sources and loads, listings, all-of-object / all attachment on the real code through main()', 60, 1500), level='proof', undecided=[],
                 trusted=['list.sort(key) / sorted(): result is a permutation ordered by the key (axiom)']),
     'C04': dict(module='contracts.C04', level='other',
-                native=native_sweep('c04_nearfield.py', 'near field at 150..300 wavelengths vs the reported far field (same power and distance, 1.5 %), E/H = 376.7 ohm, transversality; bent and branched antennas, different radii, reversed wires, ideal ground with wires grounded at either end', 40, 1500),
-                undecided=['psi_near_field_56 and the finite differences of the scalar potential, the curl (H), the power scaling, convergence to the far field: bounded native sweep only',
-                           'the image-pass mask is decided for 2 pulses (shape-bounded) and its use by a syntactic obligation (every accumulation of the pass is taken through [cond])'],
+                native=native_sweep('c04_nearfield.py', 'near field at 150..300 wavelengths vs the reported far field (same power and distance, 1.5 %), E/H = 376.7 ohm, transversality; near field close to the antenna and on the ground plane vs an independent Gauss quadrature of the potentials of currents, charges and images (1 %); a request after another frequency; bent and branched antennas, different radii, reversed wires, ideal ground with wires grounded at either end', 40, 1500),
+                undecided=['psi itself (Gauss quadrature of the thin-wire kernel: floating-point numerics, no contract) and therefore the 1 % agreement with an independent integral and the convergence to the far field, E/H = 376.7 ohm and transversality at many wavelengths: bounded native sweep only',
+                           'the assembly of E and H from the potentials (central differences over s0, curl, power scaling, image mask) is decided for 2 pulses and one observation point (shape-bounded, every value symbolic); more pulses / points: the statements are elementwise numpy operations over the pulse axis, exercised natively'],
                 trusted=['psi replaced by its contract: an uninterpreted function of its arguments (vec2, vecv, k, scale, pulse)',
                          'numpy fancy indexing with an index array acts elementwise like the scalar index used in the unit']),
     'C07': dict(module='contracts.C07', level='proof',
